@@ -511,6 +511,38 @@ mut('C10-condition-loading-times-dimension', 'C10', BF, "scale = gamma * np.trac
 neu('N9-condition-covariance-rearranged', ALLP, [(BF, "    return (x + scaled_eye) / (1 + gamma)", "    return (scaled_eye + x) * (1 / (gamma + 1))", False)])
 mut('C13-atf-target-noise-crossed-positionally', 'C13', 'pb_bss/extraction/beamformer_wrapper.py', "        return _get_gev_atf_vector(\n            target_psd_matrix,\n            noise_psd_matrix,",
     "        return _get_gev_atf_vector(\n            noise_psd_matrix,\n            target_psd_matrix,", expect='role', props=['C13'])
+# ---- third pass: statement deletions / option strings that neither the checks nor the pinned tests noticed (text-level survey, tools/mutate.py --ops del-stmt,str-option)
+MMU_ = D + 'mixture_model_utils.py'
+mut('C14-inline-affiliation-not-permuted', 'C14', MMU_, "    affiliation = aligner.apply_mapping(affiliation, mapping)\n", "", expect='value-preserving', props=['C14', 'C08'])
+mut('C14-inline-affiliation-left-transposed', 'C14', MMU_, "    affiliation = aligner.apply_mapping(affiliation, mapping)\n    affiliation = np.transpose(affiliation, (1, 0, 2))\n",
+    "    affiliation = aligner.apply_mapping(affiliation, mapping)\n", expect='value-preserving', props=['C14', 'C08'])
+mut('C14-inline-quadratic-form-not-permuted', 'C14', MMU_, "        quadratic_form = aligner.apply_mapping(quadratic_form, mapping)\n", "", expect='value-preserving', props=['C14', 'C08'])
+mut('C14-inline-quadratic-form-permuted-in-caller-layout', 'C14', MMU_, "        quadratic_form = np.transpose(quadratic_form, (1, 0, 2))\n        quadratic_form = aligner.apply_mapping",
+    "        quadratic_form = aligner.apply_mapping", expect='value-preserving', props=['C14', 'C08'])
+GA_ = D + 'gaussian.py'
+mut('C08-diagonal-mass-not-expanded', 'C08', GA_, "            denominator = denominator[..., None]\n            model_cls = DiagonalGaussian", "            model_cls = DiagonalGaussian", expect='mass-rank', props=['C08'])
+mut('C08-full-mass-expanded-once', 'C08', GA_, "            denominator = denominator[..., None, None]\n            model_cls = Gaussian", "            denominator = denominator[..., None]\n            model_cls = Gaussian", expect='mass-rank', props=['C08'])
+mut('C08-spherical-not-divided-by-dimension', 'C08', GA_, "            denominator = denominator * dimension\n", "", expect='mass-count', props=['C08'])
+mut('C08-diagonal-divided-by-dimension', 'C08', GA_, "            denominator = denominator[..., None]\n            model_cls = DiagonalGaussian", "            denominator = denominator[..., None] * dimension\n            model_cls = DiagonalGaussian", expect='mass-count', props=['C08'])
+mut('C08-ccsg-mass-not-expanded', 'C08', D + 'complex_circular_symmetric_gaussian.py', "            denominator = denominator[..., None, None]\n", "", expect='mass-rank', props=['C08'])
+mut('C08-covariance-type-strings-crossed', 'C08', GA_, '        if covariance_type == "full":\n            operation = "...nd,...nD->...dD"', '        if covariance_type == "spherical":\n            operation = "...nd,...nD->...dD"', expect='option-class', props=['C08'])
+mut('C08-diagonal-returns-full-class', 'C08', GA_, "            model_cls = DiagonalGaussian", "            model_cls = Gaussian", expect='class-rank', props=['C08'])
+mut('C12-pca-scaling-strings-crossed', 'C12', BF, "    elif scaling == 'trace':", "    elif scaling == 'eigenvalue':", expect='option', props=['C12'])
+mut('C10-mask-not-brought-to-source-time-layout', 'C10', BF, "            mask = mask.transpose(mask_transpose)\n", "", expect='layout', props=['C10'])
+mut('C10-observation-layout-time-sensor', 'C10', BF, "    ] + [sensor_dim, time_dim]\n    observation = observation.transpose(obs_transpose)", "    ] + [time_dim, sensor_dim]\n    observation = observation.transpose(obs_transpose)", expect='layout', props=['C10'])
+mut('C10-mask-layout-uses-sensor-dim', 'C10', BF, "            ] + [source_dim, time_dim]\n            mask = mask.transpose(mask_transpose)", "            ] + [sensor_dim, time_dim]\n            mask = mask.transpose(mask_transpose)", expect='layout', props=['C10'])
+mut('C18-quantile-of-complex-values', 'C18', 'pb_bss/extraction/mask_module.py', "    signal = np.abs(signal)\n\n    assert sensor_axis is None", "    assert sensor_axis is None", expect='magnitudes', props=['C18'])
+mut('C13-stable-solve-rhs-not-flattened', 'C13', 'pb_bss/math/solve.py', "        B = B.reshape(working_shape_B)\n", "", expect='flattened', props=['C13'])
+mut('C13-stable-solve-matrix-not-flattened', 'C13', 'pb_bss/math/solve.py', "        A = A.reshape(working_shape_A)\n        B = B.reshape", "        B = B.reshape", expect='flattened', props=['C13'])
+PA_ = 'pb_bss/permutation_alignment.py'
+mut('C16-dhtv-centroid-not-normalised', 'C16', PA_, "                if self.similarity_metric in ['cos']:\n                    time_centroid = _parameterized_vector_norm(\n                        time_centroid,\n                        axis=-1,\n                    )\n", "", expect='cos-unit', props=['C16'])
+mut('C16-dhtv-centroid-normalised-for-euclidean-only', 'C16', PA_, "                if self.similarity_metric in ['cos']:\n                    time_centroid", "                if self.similarity_metric in ['euclidean']:\n                    time_centroid", expect='cos-unit', props=['C16'])
+mut('C19-input-snr-not-averaged', 'C19', SX, "        SNR = np.mean(SNR, axis=0)\n", "", expect='same-postprocessing', props=['C19'])
+mut('C19-output-sdr-not-averaged', 'C19', SX, "        SDR = np.mean(SDR)\n", "", expect='same-postprocessing', props=['C19'])
+mut('C19-output-sir-averaged-over-axis', 'C19', SX, "        SIR = np.mean(SIR)\n", "        SIR = np.median(SIR)\n", expect='same-postprocessing', props=['C19'])
+mut('C07-bingham-log-pdf-complex-typed', 'C07', D + 'complex_bingham.py', "        result = result.real\n        result -= self.log_norm()[..., None]", "        result -= self.log_norm()[..., None]", expect='R-REAL', props=['C07'])
+mut('C09-bingham-duplicate-eigenvalues-not-spread', 'C09', D + 'complex_bingham.py', "        covariance_eigenvalues[..., 1:] = (\n                covariance_eigenvalues[..., 0][..., None]\n                + np.cumsum(diff, axis=-1)\n        )\n", "", expect='R-DROP', props=['C09'])
+neu('N11-unused-temporary-is-not-a-dropped-floor', ALLP, [(D + 'complex_bingham.py', "        diff = np.maximum(diff, eps)\n", "        diff = np.maximum(diff, eps)\n        spread = np.cumsum(diff, axis=-1)\n", False)])
 # ---- whole refactorings written by independent sub-agents (14-20 behaviour-preserving edits each, verified bit-identical on
 #      600-900 inputs per patch): every check must stay silent on each of them
 for r, what in (('R1', 'mixture_model_utils / cacgmm / cACG'), ('R2', 'cwmm / cbmm / Watson / Bingham / distribution.utils'), ('R3', 'gmm / gaussian / vMF / gcacgmm / vmfcacgmm'),
